@@ -658,18 +658,42 @@ impl DebuggingInformationEntry {
         abbrevs: &mut AbbreviationTable,
         codes: &mut [u64],
     ) -> Result<()> {
+        // Walk the tree with an explicit stack instead of recursion, so that deeply
+        // nested entries cannot overflow the call stack.
+        self.calculate_offset(unit, offset, offsets, abbrevs, codes)?;
+        let mut stack = Vec::new();
+        if !self.children.is_empty() {
+            stack.push(self.children.iter());
+        }
+        while let Some(children) = stack.last_mut() {
+            if let Some(child) = children.next() {
+                let child = &unit.entries[child.index];
+                child.calculate_offset(unit, offset, offsets, abbrevs, codes)?;
+                if !child.children.is_empty() {
+                    stack.push(child.children.iter());
+                }
+            } else {
+                // Null child
+                *offset += 1;
+                stack.pop();
+            }
+        }
+        Ok(())
+    }
+
+    /// Calculate the offset and abbreviation code of this entry only.
+    fn calculate_offset(
+        &self,
+        unit: &Unit,
+        offset: &mut usize,
+        offsets: &mut UnitOffsets,
+        abbrevs: &mut AbbreviationTable,
+        codes: &mut [u64],
+    ) -> Result<()> {
         offsets.entries[self.id.index] = DebugInfoOffset(*offset);
         let code = abbrevs.add(self.abbreviation(unit.encoding())?);
         codes[self.id.index] = code;
         *offset += self.size(unit, offsets, code)?;
-        if !self.children.is_empty() {
-            for child in &self.children {
-                unit.entries[child.index]
-                    .calculate_offsets(unit, offset, offsets, abbrevs, codes)?;
-            }
-            // Null child
-            *offset += 1;
-        }
         Ok(())
     }
 
@@ -699,41 +723,29 @@ impl DebuggingInformationEntry {
         range_lists: &RangeListOffsets,
         loc_lists: &LocationListOffsets,
     ) -> Result<()> {
-        debug_assert_eq!(offsets.debug_info_offset(self.id), Some(w.offset()));
-        w.write_uleb128(codes[self.id.index])?;
+        // Walk the tree with an explicit stack instead of recursion, so that deeply
+        // nested entries cannot overflow the call stack.
+        let mut stack = Vec::new();
+        let mut entry = self;
+        loop {
+            debug_assert_eq!(offsets.debug_info_offset(entry.id), Some(w.offset()));
+            w.write_uleb128(codes[entry.id.index])?;
 
-        let sibling_offset = if self.sibling && !self.children.is_empty() {
-            let offset = w.offset();
-            w.write_udata(0, unit.format().word_size())?;
-            Some(offset)
-        } else {
-            None
-        };
+            let sibling_offset = if entry.sibling && !entry.children.is_empty() {
+                let offset = w.offset();
+                w.write_udata(0, unit.format().word_size())?;
+                Some(offset)
+            } else {
+                None
+            };
 
-        for attr in &self.attrs {
-            attr.value.write(
-                w,
-                debug_info_refs,
-                unit_refs,
-                unit,
-                offsets,
-                line_program,
-                line_strings,
-                strings,
-                range_lists,
-                loc_lists,
-            )?;
-        }
-
-        if !self.children.is_empty() {
-            for child in &self.children {
-                unit.entries[child.index].write(
+            for attr in &entry.attrs {
+                attr.value.write(
                     w,
                     debug_info_refs,
                     unit_refs,
                     unit,
                     offsets,
-                    codes,
                     line_program,
                     line_strings,
                     strings,
@@ -741,16 +753,30 @@ impl DebuggingInformationEntry {
                     loc_lists,
                 )?;
             }
-            // Null child
-            w.write_u8(0)?;
-        }
 
-        if let Some(offset) = sibling_offset {
-            let next_offset = (w.offset().0 - offsets.unit.0) as u64;
-            // This does not need relocation.
-            w.write_udata_at(offset.0, next_offset, unit.format().word_size())?;
+            if !entry.children.is_empty() {
+                stack.push((entry.children.iter(), sibling_offset));
+            }
+
+            // Find the next entry, finishing any entries whose children are all written.
+            loop {
+                let Some((children, sibling_offset)) = stack.last_mut() else {
+                    return Ok(());
+                };
+                if let Some(child) = children.next() {
+                    entry = &unit.entries[child.index];
+                    break;
+                }
+                // Null child
+                w.write_u8(0)?;
+                if let Some(offset) = *sibling_offset {
+                    let next_offset = (w.offset().0 - offsets.unit.0) as u64;
+                    // This does not need relocation.
+                    w.write_udata_at(offset.0, next_offset, unit.format().word_size())?;
+                }
+                stack.pop();
+            }
         }
-        Ok(())
     }
 }
 
